@@ -5,6 +5,8 @@ import json, os, subprocess, sys, tempfile, xml.etree.ElementTree as ET
 base = json.load(open("/root/.vp/BASELINE.json"))
 fd, junit = tempfile.mkstemp(suffix=".xml"); os.close(fd)
 cmd = base["cmd"].replace("<file>", junit)
+if len(sys.argv) > 1:          # optional: path of a scratch worktree instead of /repo
+    cmd = cmd.replace("cd /repo", "cd " + sys.argv[1])
 env = dict(os.environ); env.pop("CNFGEN_VERIF", None)
 p = subprocess.run(cmd, shell=True, stdout=subprocess.PIPE, stderr=subprocess.STDOUT, env=env)
 passed = set()
